@@ -182,6 +182,13 @@ def compare(S, ev, prev=None):
                 bad("C05:commission", "fill %s commission %s, expected %s" % (ident, f["comm"], e["comm"]))
             if f["t"] != e["t"]:
                 bad("C05:stamp", "fill %s stamped %s, expected %s" % (ident, f["t"], e["t"]))
+    if ev["call"].get("op") == "update" and prev is not None:
+        for p in post["created"]:
+            if p in prev["post"]["cash"]:
+                owed = sum(f["qty"] * f["px"] + f["comm"] for f in fills if f["pid"] == p)
+                if prev["post"]["cash"][p] - post["cash"][p] != owed:
+                    bad("C05:debited", "cash[%s] moved by %s across the update, its fills' consideration plus commission is %s (%s)" % (
+                        p, post["cash"][p] - prev["post"]["cash"][p], owed, [(f["qty"], f["px"], f["comm"]) for f in fills if f["pid"] == p]), cascade=False)
     em = set((m[0], m[1], m[2]) for m in S["marks"])
     gm = set((m["pid"], m["asset"], m["px"]) for m in ev["marks"])
     if em != gm:
